@@ -86,6 +86,14 @@ def _edits(kind, c, universe):
             d["edges"][0][1] = d["edges"][0][1] + 1
             out.append(("bump-weight", d, None))
             w0 = c["edges"][0][1]
+            # two weights that differ by 1e-12 (relative): a fingerprint that rounds weights collides on them
+            d = clone()
+            d["edges"][0][1] = float(w0) if float(w0) != w0 or type(w0) is float else float(w0) + 0.5
+            base = d["edges"][0][1]
+            out.append(("float-weight", d, None))
+            d = clone()
+            d["edges"][0][1] = base + max(abs(base), 1.0) * 1e-12
+            out.append(("float-weight-nudged", d, None))
             if type(w0) is int:
                 d = clone()
                 d["edges"][0][1] = float(w0)
